@@ -240,6 +240,7 @@ func (iloc *itemLoc) NumBytes(c *Collection) int {
 	// other order can, when a Flush and an evicting reader run between the two
 	// reads, and the item's bytes were then missing from every aggregate above it.
 	i := iloc.Item()
+	verifYield(4)
 	loc := iloc.Loc()
 	if loc.isEmpty() {
 		if i == nil {
